@@ -34,6 +34,8 @@ type Contract struct {
 	Strings     string // order | smt
 	Requires    []*Clause
 	Ensures     []*Clause
+	AssumedPre  []*Clause // `assumes_pre`: preconditions assumed for the body, NOT checked at call sites (reported as assumptions)
+	Assumed     []*Clause // `assumes_post`: postconditions assumed at call sites, NOT proved for the body (reported as assumptions)
 	PanicsIff   *Clause
 	MayPanic    *Clause // may_panic_only_if
 	NoPanic     bool
@@ -345,6 +347,12 @@ func (cs *ContractSet) loadContractFile(path, defaultPkg string) error {
 		case "ensures":
 			cur.Ensures = append(cur.Ensures, mk(rest))
 			lastClause = &cur.Ensures[len(cur.Ensures)-1]
+		case "assumes_pre":
+			cur.AssumedPre = append(cur.AssumedPre, mk(rest))
+			lastClause = &cur.AssumedPre[len(cur.AssumedPre)-1]
+		case "assumes_post":
+			cur.Assumed = append(cur.Assumed, mk(rest))
+			lastClause = &cur.Assumed[len(cur.Assumed)-1]
 		case "panics_iff":
 			cur.PanicsIff = mk(rest)
 			lastClause = &cur.PanicsIff
@@ -364,6 +372,24 @@ func (cs *ContractSet) loadContractFile(path, defaultPkg string) error {
 					cl := mk(a)
 					if strings.HasPrefix(a, "ghost ") {
 						cl.X = &SX{K: "ghost", Op: strings.TrimSpace(a[6:])}
+					}
+					if strings.HasPrefix(a, "cell(") && strings.HasSuffix(a, ")") {
+						// the cell behind a pointer to a non-struct value
+						base, err := parseSpec(a[5 : len(a)-1])
+						if err != nil {
+							return fmt.Errorf("%s:%d: %v", path, ln, err)
+						}
+						cl.X = &SX{K: "cell", Args: []*SX{base}}
+					}
+					if strings.HasPrefix(a, "all ") {
+						// `all T.f`: field f of EVERY object of struct type T (coarse frame;
+						// the ensures clauses must say which objects keep their value)
+						tf := strings.TrimSpace(a[4:])
+						i := strings.LastIndex(tf, ".")
+						if i <= 0 {
+							return fmt.Errorf("%s:%d: expected `all Type.field`", path, ln)
+						}
+						cl.X = &SX{K: "allfield", Op: tf[i+1:], Args: []*SX{{K: "id", Op: tf[:i]}}}
 					}
 					if strings.HasSuffix(a, "[*]") {
 						// all elements of a slice
@@ -498,7 +524,7 @@ func (cs *ContractSet) parseAll() error {
 		return nil
 	}
 	for _, c := range cs.Funcs {
-		for _, l := range [][]*Clause{c.Requires, c.Ensures, c.OnPanic, c.Assigns, {c.PanicsIff, c.MayPanic, c.Decreases}} {
+		for _, l := range [][]*Clause{c.Requires, c.AssumedPre, c.Ensures, c.Assumed, c.OnPanic, c.Assigns, {c.PanicsIff, c.MayPanic, c.Decreases}} {
 			if err := pcs(l); err != nil {
 				return err
 			}
